@@ -99,6 +99,19 @@ def shape(name, leaf):
         return {"fields": [["a", L], w]}
     if name == "nested":
         return {"fields": [["a", L], ["sub", {"k": "Schema", "fields": [["c", L], ["deep", {"k": "Schema", "fields": [["e", L]]}], ["w2", WITNESS]]}], w]}
+    if name == "nested-v":
+        # like "nested", with schema validators that reject one particular (valid) value of c / e:
+        # a rejection that only happens in the whole-configuration validation phase of a load
+        vals = catalogue()[leaf][1]
+        rej = vals[1] if len(vals) > 1 else vals[0]
+        return {"fields": [["a", L], ["sub", {"k": "Schema", "reject": ["c", rej], "fields": [
+            ["c", L], ["deep", {"k": "Schema", "reject": ["e", rej], "fields": [["e", L]]}], ["w2", WITNESS]]}], w]}
+    if name == "cfglist-v":
+        vals = catalogue()[leaf][1]
+        rej = vals[1] if len(vals) > 1 else vals[0]
+        item = {"k": "Schema", "reject": ["c", rej], "fields": [["c", L], ["r", {"k": "Str", "o": {"required": True}}]]}
+        ct = {"k": "CType", "name": "CTV", "reject": ["c", rej], "fields": [["c", L]]}
+        return {"fields": [["items", {"k": "List", "item": item}], ["t", ct], ["ts", {"k": "List", "item": ct}], w]}
     if name == "cfglist":
         item = {"k": "Schema", "fields": [["c", L], ["r", {"k": "Str", "o": {"required": True}}]]}
         ct = {"k": "CType", "name": "CT", "fields": [["c", L]]}
@@ -133,6 +146,18 @@ class Built:
         s = into if into is not None else cc.Schema(dynamic=bool(spec.get("dynamic")))
         if into is None and spec.get("name"):
             self.named[spec["name"]] = s
+        if spec.get("reject"):
+            key, vspec = spec["reject"]
+            fspec = dict(spec["fields"])[key]
+            fs = {k: v for k, v in fspec.items()}
+            fs["o"] = {a: b for a, b in fspec.get("o", {}).items() if a not in ("default", "default_callable", "required")}
+            norm = R.ref_validate(fs, V.dec(vspec))
+            bad = V.plain(norm[1]) if norm[0] == "ok" and not isinstance(norm[1], (R.DigestOf, R.Same)) else None
+
+            def _validator(cfg, key=key, bad=bad):
+                if bad is not None and V.plain(getattr(cfg, key)) == bad:
+                    raise ValueError("the %s validator rejects this value" % key)
+            cc.validator(s)(_validator)
         for key, f in spec["fields"]:
             k = f["k"]
             if k == "Schema":
